@@ -239,7 +239,7 @@ def execute(case):
 
     if op == "conj":
         res = lib(lambda: x.conj())
-        _check_tt(ck, T, res, xd.conj(), xa, dt, True, False)
+        _check_tt(ck, T, res, xd.conj(), xa, dt, exact, False)
         ck.nontrivial = big and core.is_complex(dt)
         return ck.verdict()
 
